@@ -661,18 +661,28 @@ func VH21f_faults() {
 			verif.FireTimer()
 		}
 	}
+	// with the write fault a healthy bystander is connected too: it shares the message whose write fails on c1
+	var c9 *vnet.Conn
+	base := 0
+	if fault == 1 && verif.Choice("bystander", 2) == 1 {
+		c9 = L.Connect("c9")
+		c9.PeerSend(vnet.SPHeader(self))
+		verif.Quiesce()
+		base = 1
+	}
 	c1 := L.Connect("c1")
 	c1.PeerSend(vnet.SPHeader(self))
 	verif.Quiesce()
 	for i := 0; i < 3 && verif.PendingTimers() > 0; i++ {
 		verif.FireTimer()
 	}
-	verif.Assert(h.attached == 1 && !c1.Closed, lab+"/connection-after-a-failed-accept-not-attached")
-	if h.attached != 1 {
+	verif.Assert(h.attached == base+1 && !c1.Closed, lab+"/connection-after-a-failed-accept-not-attached")
+	if h.attached != base+1 {
 		return
 	}
 	body := []byte{'m', verif.Byte("b1"), verif.Byte("b2"), verif.Byte("b3")}
 	full := len(frame(body))
+	sentBody := false
 	switch fault {
 	case 1:
 		ks := []int{0, 1, 8, 9, full - 1}
@@ -686,6 +696,7 @@ func VH21f_faults() {
 			c1.PeerReset()
 			verif.Quiesce()
 		} else {
+			sentBody = true
 			var serr error
 			g := verif.Go("send", func() { serr = sock.Send(body) })
 			verif.Quiesce()
@@ -732,9 +743,18 @@ func VH21f_faults() {
 	for i := 0; i < 3 && verif.PendingTimers() > 0; i++ {
 		verif.FireTimer()
 	}
-	verif.Assert(h.attached == 2 && !c2.Closed, lab+"/listener-stopped-accepting-after-a-fault")
-	if h.attached != 2 {
+	verif.Assert(h.attached == base+2 && !c2.Closed, lab+"/listener-stopped-accepting-after-a-fault")
+	if h.attached != base+2 {
 		return
+	}
+	if c9 != nil {
+		// the bystander got the message whose write failed elsewhere, whole and once, and nothing else
+		verif.Assert(!c9.Closed, lab+"/bystander-connection-closed-by-a-fault-on-another-connection")
+		if sentBody {
+			verif.Assert(len(c9.Out) == 8+len(frame(body)) && verif.BytesEq(c9.Out[8:], frame(body)), lab+"/bystander-did-not-get-the-message-intact")
+		} else {
+			verif.Assert(len(c9.Out) == 8, lab+"/bystander-got-a-message-nobody-sent")
+		}
 	}
 	in := []byte{'i', verif.Byte("i1")}
 	c2.PeerSend(frame(in))
@@ -763,6 +783,14 @@ func VH21f_faults() {
 	verif.Quiesce()
 	for i := 0; i < 3; i++ {
 		verif.FireTimer()
+	}
+	if c9 != nil {
+		off := 8
+		if sentBody {
+			off += len(frame(body))
+		}
+		verif.Assert(len(c9.Out) == off+len(frame(out)) && verif.BytesEq(c9.Out[off:], frame(out)), lab+"/bystander-did-not-get-the-later-message-intact")
+		verif.Assert(c9.Closed, "C10/stream/connection-left-open-after-close")
 	}
 	verif.Assert(c1.Closed && c2.Closed, "C10/stream/connection-left-open-after-close")
 	verif.Assert(len(vnet.N.Listeners) == 0, "C10/stream/listening-address-left-after-close")
